@@ -398,12 +398,13 @@ def norm_index(x, i):
     return Ite(Lt(i, I(0)), Add(Len(x), i), i)
 
 
-def PySlice(x, a, b):
-    """Python x[a:b] with clamping; a, b are Int terms or None."""
+def PySlice(x, a, b, nonneg=None):
+    """Python x[a:b] with clamping; a, b are Int terms or None.  nonneg: bounds the caller knows to be non-negative (their clamps are dropped)"""
+    nonneg = nonneg or (lambda t: False)
     n = Len(x)
     if a is None:
         lo = I(0)
-    elif (a.op == "#int" and a.val >= 0) or syn_nonneg(a):
+    elif (a.op == "#int" and a.val >= 0) or syn_nonneg(a) or nonneg(a):
         lo = a
     elif a.op == "#int":
         lo = Max(Add(n, a), I(0))
@@ -411,7 +412,7 @@ def PySlice(x, a, b):
         lo = Ite(Lt(a, I(0)), Max(Add(n, a), I(0)), a)
     if b is None:
         hi = n
-    elif (b.op == "#int" and b.val >= 0) or syn_nonneg(b):
+    elif (b.op == "#int" and b.val >= 0) or syn_nonneg(b) or nonneg(b):
         hi = b
     elif b.op == "#int":
         hi = Max(Add(n, b), I(0))
